@@ -462,6 +462,224 @@ def case_piston(ctx, nr):
     ctx.validate("piston_orth", evaluate(s, {}), lambda: kl.piston_orth(nr), tol=1e-12)
 
 
+# ------------------------------------------------------------------ Cartesian geometry (pcgeom) and masking (pol2car)
+def _pix(ncp, ncmar):
+    """pixel-centre coordinates in pupil radii, written independently: x_j = (j - (ncp-1)/2) / ((ncp - 2 ncmar)/2),
+    rows are y; one IEEE division per coordinate, and r^2 = x*x + y*y in double precision (the values the real code
+    compares with ri^2 - an exact-rational r^2 would differ from it in the last bit and move the annulus edge)"""
+    import math
+    half = (ncp - 2 * ncmar) / 2.0
+    c = [(j - (ncp - 1) / 2.0) / half for j in range(ncp)]
+    r2 = [[c[j] * c[j] + c[i] * c[i] for j in range(ncp)] for i in range(ncp)]
+    th = [[(math.atan2(c[i], c[j]) + 2 * math.pi) % (2 * math.pi) for j in range(ncp)] for i in range(ncp)]
+    return c, r2, th
+
+
+def _numeric_pcgeom(kl, nr, npp, ncp, ri, ncmar):
+    import math
+    g = kl.pcgeom(nr, npp, ncp, ri, ncmar)
+    c, r2, th = _pix(ncp, ncmar)
+    bad = []
+    ap, cr, cp = numpy.asarray(g["ap"]), numpy.asarray(g["cr"], dtype=float), numpy.asarray(g["cp"], dtype=float)
+    if ap.shape != (ncp, ncp) or cr.shape != (ncp, ncp) or cp.shape != (ncp, ncp):
+        return True, dict(what="pcgeom: shapes", ap=ap.shape, cr=cr.shape, cp=cp.shape)
+    for i in range(ncp):
+        for j in range(ncp):
+            ins = (r2[i][j] >= ri ** 2) and (r2[i][j] <= 1.0)
+            if bool(ap[i, j]) != ins:
+                bad.append("ap[%d,%d]=%s but pixel centre r^2=%.6g, ri^2=%.6g" % (i, j, bool(ap[i, j]), r2[i][j], ri ** 2))
+            wr = min(max((r2[i][j] - ri ** 2) / (1 - ri ** 2) * nr, 1e-3), nr - 1.001)
+            if abs(cr[i, j] - wr) > 1e-9:
+                bad.append("cr[%d,%d]=%.9g, radial index of the pixel centre in the equal-area grid is %.9g" % (i, j, cr[i, j], wr))
+            wp = min(max(npp * th[i][j] / (2 * math.pi), 1e-3), npp - 1.001)
+            if abs(cp[i, j] - wp) > 1e-9:
+                bad.append("cp[%d,%d]=%.9g, azimuthal index of the pixel centre is %.9g" % (i, j, cp[i, j], wp))
+    return bool(bad), dict(what="pcgeom(nr=%d, npp=%d, ncp=%d, ri=%r, ncmar=%d): %s" % (nr, npp, ncp, ri, ncmar, "; ".join(bad[:4]) or "ok"))
+
+
+def replay_pcgeom(ri, nr, npp, ncp, ncmar):
+    kl = _kl()
+    ri = min(max(float(ri), 1e-6), 1 - 1e-6)
+    return _numeric_pcgeom(kl, nr, npp, ncp, ri, ncmar)
+
+
+def case_pcgeom(ctx, nr, npp, ncp, ncmar):
+    """pcgeom for a SYMBOLIC obscuration ri: aperture = annulus indicator of the pixel centres, (cr, cp) = the pixel
+    centre's index in the polar grid (equal-area radial grid r_k^2 = ri^2 + k (1-ri^2)/nr of radii(), uniform angles),
+    clipped into the grid.  setpincs (Cartesian -> polar squares; not used by make_kl) is cut away."""
+    import math
+    kl = _kl()
+    ri = var("ri")
+    pre = [z(ri.re) > 0, z(ri.re) < 1]
+    ctx.encoded(kl.pcgeom, kl.radii, kl.polang, kl.rebin)
+    ctx.bounds.update(nr=nr, npp=npp, ncp=ncp, ncmar=ncmar, ri="symbolic in (0,1)")
+    St.notes.add("pcgeom: setpincs cut away (returns nothing; its outputs are not used by make_kl / pol2car)")
+
+    def go():
+        with npx.symbolic(kl):
+            orig = kl.setpincs
+            kl.setpincs = lambda ax, ay, px, py, ri: (None, None, None)
+            try:
+                return kl.pcgeom(nr, npp, ncp, ri, ncmar)
+            finally:
+                kl.setpincs = orig
+    paths, ex = core.run_paths(go, pre, max_paths=400)
+    ctx.explored(ex, len(paths))
+    rp = lambda m: replay_pcgeom(m(ri), nr, npp, ncp, ncmar)
+    ctx.fallback = rp
+    names = dict(ri=ri)
+    c, r2, th = _pix(ncp, ncmar)
+    ri2 = z((ri * ri).re)
+    lo, hi = Fr(1e-3), Fr(nr - 1.001)
+    plo, phi = 1e-3, npp - 1.001
+    for pi, p in enumerate(paths):
+        if p.exc is not None:
+            ctx.prove("path%d raises %s" % (pi, type(p.exc).__name__), pre + p.pc, z3.BoolVal(False), replay=rp, witness_terms=names, axioms=False)
+            continue
+        g = p.out
+        try:
+            ap = numpy.asarray(g["ap"], dtype=object)
+            cr = numpy.asarray(g["cr"], dtype=object)
+            cp = numpy.asarray(g["cp"], dtype=object)
+            ok = ap.shape == cr.shape == cp.shape == (ncp, ncp)
+        except Exception:
+            ok = False
+        if not ok:
+            ctx.prove("path%d: geometry arrays are ncp x ncp" % pi, pre + p.pc, z3.BoolVal(False), replay=rp, witness_terms=names, axioms=False)
+            continue
+        la, lr, lp = [], [], []
+        for i in range(ncp):
+            for j in range(ncp):
+                R2 = z3.RealVal(str(Fr(r2[i][j])))
+                ins = z3.And(R2 >= ri2, R2 <= 1)
+                a = Sym.lift(ap[i, j])
+                if a.isconc():
+                    la.append(ins if a.re != 0 else z3.Not(ins))
+                else:
+                    la.append(z3.BoolVal(False))
+                v = (R2 - ri2) / (1 - ri2) * nr
+                want = z3.If(v < z3.RealVal(str(lo)), z3.RealVal(str(lo)), z3.If(v > z3.RealVal(str(hi)), z3.RealVal(str(hi)), v))
+                lr.append(z(Sym.lift(cr[i, j]).re) == want)
+                w = Sym.lift(cp[i, j])
+                wp = min(max(npp * th[i][j] / (2 * math.pi), plo), phi)
+                lp.append(z3.BoolVal(bool(w.isconc() and abs(float(w.re) - wp) < 1e-9)))
+        ctx.prove("path%d: aperture = indicator of pixel centres with ri^2 <= r^2 <= 1 (centred grid, pupil radius = (ncp - 2 ncmar)/2 pixels)" % pi,
+                  pre + p.pc, conj(la), replay=rp, witness_terms=names)
+        ctx.prove("path%d: cr = radial index of each pixel centre in the equal-area grid, clipped to [1e-3, nr-1.001]" % pi,
+                  pre + p.pc, conj(lr), replay=rp, witness_terms=names, timeout_ms=60000)
+        ctx.prove("path%d: cp = azimuthal index npp*theta/2pi of each pixel centre (independent of ri), clipped to [1e-3, npp-1.001]" % pi,
+                  pre + p.pc, conj(lp), replay=rp, witness_terms=names, axioms=False)
+    ctx.prove("guard: preconditions satisfiable", pre, z3.BoolVal(False), expect="sat", kind="vacuity", axioms=False)
+    with npx.symbolic(kl):
+        orig = kl.setpincs
+        kl.setpincs = lambda ax, ay, px, py, ri: (None, None, None)
+        try:
+            g = kl.pcgeom(nr, npp, ncp, 0.3, ncmar)
+        finally:
+            kl.setpincs = orig
+    ctx.validate("pcgeom cr", evaluate(g["cr"], {}), lambda: kl.pcgeom(nr, npp, ncp, 0.3, ncmar)["cr"], tol=1e-12)
+    ctx.validate("pcgeom ap", evaluate(numpy.asarray(g["ap"], dtype=object), {}), lambda: kl.pcgeom(nr, npp, ncp, 0.3, ncmar)["ap"].astype(float), tol=0)
+
+
+def replay_pol2car(ri, nr, npp, ncp):
+    kl = _kl()
+    ri = min(max(float(ri), 1e-6), 1 - 1e-6)
+    g = kl.pcgeom(nr, npp, ncp, ri, 0)
+    rs = numpy.random.RandomState(5)
+    pol = rs.standard_normal((nr, npp)) + 3.0
+    keep = pol.copy()
+    m = numpy.asarray(kl.pol2car(g, pol, mask=True), dtype=float)
+    u = numpy.asarray(kl.pol2car(g, pol, mask=False), dtype=float)
+    c, r2, th = _pix(ncp, 0)
+    bad = []
+    for i in range(ncp):
+        for j in range(ncp):
+            ins = (r2[i][j] >= ri ** 2) and (r2[i][j] <= 1.0)
+            if not ins and m[i, j] != 0:
+                bad.append("masked mode is %.4g at pixel (%d,%d) outside the annulus" % (m[i, j], i, j))
+            if ins and abs(m[i, j] - u[i, j]) > 1e-12:
+                bad.append("masked mode differs from the unmasked one at pixel (%d,%d) inside the annulus" % (i, j))
+    if not numpy.array_equal(pol, keep):
+        bad.append("pol2car modified the polar array")
+    return bool(bad), dict(what="pol2car(nr=%d, npp=%d, ncp=%d, ri=%r): %s" % (nr, npp, ncp, ri, "; ".join(bad[:4]) or "ok"))
+
+
+def case_pol2car(ctx, nr, npp, ncp):
+    """pol2car with the resampler (scipy.ndimage.map_coordinates) replaced by an uninterpreted one (a fresh real per
+    pixel, the same for the masked and the unmasked call): masked = resampled inside the annulus, exactly 0 outside;
+    unmasked = resampled everywhere; the resampler is asked for the (cr, cp) of pcgeom, order 1, the polar array given."""
+    kl = _kl()
+    ri = var("ri")
+    pre = [z(ri.re) > 0, z(ri.re) < 1]
+    ctx.encoded(kl.pol2car, kl.pcgeom)
+    ctx.bounds.update(nr=nr, npp=npp, ncp=ncp, ncmar=0, ri="symbolic in (0,1)", polar_array="symbolic nr x npp")
+    St.notes.add("scipy.ndimage.map_coordinates uninterpreted (a fresh real per output pixel; arguments recorded); setpincs cut away")
+    pol = numpy.empty((nr, npp), dtype=object)
+    for a in range(nr):
+        for b in range(npp):
+            pol[a, b] = var("pol%d_%d" % (a, b))
+    pol = pol.view(core.SA)
+    calls = []
+
+    def mc(inp, coords, *a, **k):
+        calls.append((inp, coords, a, k))
+        out = numpy.empty((ncp, ncp), dtype=object)
+        for i in range(ncp):
+            for j in range(ncp):
+                out[i, j] = var("res%d_%d" % (i, j))
+        return out.view(core.SA)
+
+    def go():
+        del calls[:]
+        with npx.symbolic(kl):
+            o1, o2 = kl.setpincs, kl.map_coordinates
+            kl.setpincs = lambda ax, ay, px, py, ri: (None, None, None)
+            kl.map_coordinates = mc
+            try:
+                g = kl.pcgeom(nr, npp, ncp, ri, 0)
+                m = kl.pol2car(g, pol, mask=True)
+                u = kl.pol2car(g, pol, mask=False)
+                return g, numpy.asarray(m, dtype=object), numpy.asarray(u, dtype=object), list(calls)
+            finally:
+                kl.setpincs, kl.map_coordinates = o1, o2
+    paths, ex = core.run_paths(go, pre, max_paths=400)
+    ctx.explored(ex, len(paths))
+    rp = lambda m: replay_pol2car(m(ri), nr, npp, ncp)
+    ctx.fallback = rp
+    names = dict(ri=ri)
+    c, r2, th = _pix(ncp, 0)
+    ri2 = z((ri * ri).re)
+    for pi, p in enumerate(paths):
+        if p.exc is not None:
+            ctx.prove("path%d raises %s" % (pi, type(p.exc).__name__), pre + p.pc, z3.BoolVal(False), replay=rp, witness_terms=names, axioms=False)
+            continue
+        g, m, u, cl = p.out
+        shape_ok = m.shape == (ncp, ncp) and u.shape == (ncp, ncp) and len(cl) == 2
+        if shape_ok:
+            for (inp, coords, a, k) in cl:
+                if inp is not pol or len(coords) != 2 or coords[0] is not g["cr"] or coords[1] is not g["cp"] or k.get("order", 3) != 1:
+                    shape_ok = False
+        if not shape_ok:
+            ctx.prove("path%d: resampler asked for (cr, cp) of the geometry, order 1, on the polar array; outputs ncp x ncp" % pi, pre + p.pc,
+                      z3.BoolVal(False), replay=rp, witness_terms=names, axioms=False)
+            continue
+        lm, lu = [], []
+        for i in range(ncp):
+            for j in range(ncp):
+                R2 = z3.RealVal(str(Fr(r2[i][j])))
+                ins = z3.And(R2 >= ri2, R2 <= 1)
+                res = z(var("res%d_%d" % (i, j)).re)
+                mv = Sym.lift(m[i, j])
+                lm.append(z3.If(ins, z(mv.re) == res, z(mv.re) == 0))
+                lm.append(z(mv.im) == 0) if hasattr(mv, "im") and not isinstance(mv.im, (int, float)) else None
+                lu.append(z(Sym.lift(u[i, j]).re) == res)
+        lm = [x for x in lm if x is not None]
+        ctx.prove("path%d: masked mode = resampled value inside the annulus, exactly 0 at every pixel outside it" % pi, pre + p.pc, conj(lm),
+                  replay=rp, witness_terms=names)
+        ctx.prove("path%d: unmasked mode = resampled value at every pixel" % pi, pre + p.pc, conj(lu), replay=rp, witness_terms=names)
+    ctx.prove("guard: preconditions satisfiable", pre, z3.BoolVal(False), expect="sat", kind="vacuity", axioms=False)
+
+
 def build_cases(tier):
     cases = []
     F = [(2, 3, 2), (2, 3, 3)] if tier == "quick" else [(2, 3, 2), (2, 3, 3), (2, 4, 4), (2, 4, 3)]
@@ -473,6 +691,11 @@ def build_cases(tier):
         cases.append(("radii/nr=%d" % nr, case_radii, dict(nr=nr)))
     for nr in ([2, 3, 4] if tier == "quick" else [2, 3, 4, 5, 6, 8]):
         cases.append(("piston/nr=%d" % nr, case_piston, dict(nr=nr)))
+    G = [(2, 6, 4, 0), (2, 6, 5, 0), (3, 8, 6, 1)] if tier == "quick" else [(2, 6, 4, 0), (2, 6, 5, 0), (3, 8, 6, 1), (3, 8, 7, 0), (2, 6, 7, 1), (4, 10, 8, 0), (3, 8, 9, 2)]
+    for nr, npp, ncp, ncmar in G:
+        cases.append(("pcgeom/nr=%d/npp=%d/ncp=%d/ncmar=%d" % (nr, npp, ncp, ncmar), case_pcgeom, dict(nr=nr, npp=npp, ncp=ncp, ncmar=ncmar)))
+    for nr, npp, ncp in ([(2, 6, 4), (2, 6, 5)] if tier == "quick" else [(2, 6, 4), (2, 6, 5), (3, 8, 6), (3, 8, 7)]):
+        cases.append(("pol2car/nr=%d/npp=%d/ncp=%d" % (nr, npp, ncp), case_pol2car, dict(nr=nr, npp=npp, ncp=ncp)))
     return cases
 
 
